@@ -53,6 +53,9 @@ var baselinePath string // set from -verif in main
 
 var normaliseLog []string
 
+// funcCanon maps a renamed function to a stand-in object with its baseline name (see normalise).
+var funcCanon = map[*types.Func]*types.Func{}
+
 func loadBaseline() map[string]bool {
 	if baselinePath == "" {
 		return nil
@@ -108,8 +111,110 @@ func writeBaseline(p *Prog, verif string) {
 	for k := range callers {
 		sort.Strings(callers[k])
 	}
+	fields := map[string][]string{}
+	for _, pk := range p.Pkgs {
+		sc := pk.Types.Scope()
+		for _, nm := range sc.Names() {
+			tn, ok := sc.Lookup(nm).(*types.TypeName)
+			if !ok {
+				continue
+			}
+			st, ok := tn.Type().Underlying().(*types.Struct)
+			if !ok {
+				continue
+			}
+			key := relPkg(pk.PkgPath) + "." + nm
+			for i := 0; i < st.NumFields(); i++ {
+				fields[key] = append(fields[key], st.Field(i).Name()+"|"+types.TypeString(st.Field(i).Type(), nil))
+			}
+		}
+	}
+	fb, _ := json.MarshalIndent(fields, "", " ")
+	os.WriteFile(filepath.Join(verif, "baseline_fields.json"), append(fb, '\n'), 0o644)
 	cb, _ := json.MarshalIndent(callers, "", " ")
 	os.WriteFile(filepath.Join(verif, "baseline_callers.json"), append(cb, '\n'), 0o644)
+}
+
+// fieldCanon maps a struct field that was renamed since the baseline to the
+// name the rules know it by: a vanished field and a new field of the same
+// struct with the same type, unique on both sides.
+var fieldCanon = map[*types.Var]string{}
+
+// canonObj: the stand-in of a renamed function, anything else unchanged.
+func canonObj(o types.Object) types.Object {
+	if f, ok := o.(*types.Func); ok {
+		if c, ok := funcCanon[f]; ok {
+			return c
+		}
+	}
+	return o
+}
+
+func canonFieldName(v *types.Var) string {
+	if n, ok := fieldCanon[v]; ok {
+		return n
+	}
+	return v.Name()
+}
+
+func (p *Prog) canonFields() {
+	if baselinePath == "" {
+		return
+	}
+	b, err := os.ReadFile(filepath.Join(filepath.Dir(baselinePath), "baseline_fields.json"))
+	if err != nil {
+		return
+	}
+	base := map[string][]string{}
+	if json.Unmarshal(b, &base) != nil {
+		return
+	}
+	for _, pk := range p.Pkgs {
+		sc := pk.Types.Scope()
+		for _, nm := range sc.Names() {
+			tn, ok := sc.Lookup(nm).(*types.TypeName)
+			if !ok {
+				continue
+			}
+			st, ok := tn.Type().Underlying().(*types.Struct)
+			if !ok {
+				continue
+			}
+			old, ok := base[relPkg(pk.PkgPath)+"."+nm]
+			if !ok {
+				continue
+			}
+			oldSet := map[string]string{}
+			for _, e := range old {
+				if i := strings.Index(e, "|"); i >= 0 {
+					oldSet[e[:i]] = e[i+1:]
+				}
+			}
+			cur := map[string]*types.Var{}
+			for i := 0; i < st.NumFields(); i++ {
+				cur[st.Field(i).Name()] = st.Field(i)
+			}
+			vanishedByType := map[string][]string{}
+			for n, t := range oldSet {
+				if cur[n] == nil {
+					vanishedByType[t] = append(vanishedByType[t], n)
+				}
+			}
+			addedByType := map[string][]*types.Var{}
+			for n, v := range cur {
+				if _, was := oldSet[n]; !was {
+					t := types.TypeString(v.Type(), nil)
+					addedByType[t] = append(addedByType[t], v)
+				}
+			}
+			for t, vs := range vanishedByType {
+				if as := addedByType[t]; len(vs) == 1 && len(as) == 1 {
+					fieldCanon[as[0]] = vs[0]
+					normaliseLog = append(normaliseLog, fmt.Sprintf("renamed field: %s.%s is treated as %s", nm, as[0].Name(), vs[0]))
+				}
+			}
+		}
+	}
 }
 
 // hostOfVanished: a baseline function that no longer exists and used to be
@@ -1073,6 +1178,7 @@ func (p *Prog) normalise() {
 	if base == nil {
 		return
 	}
+	p.canonFields()
 	// per package: new functions
 	byPkgNew := map[*packages.Package][]*FuncInfo{}
 	present := map[string]bool{}
@@ -1155,6 +1261,12 @@ func (p *Prog) normalise() {
 				delete(p.funcs, nf.Name)
 				nf.Name = old
 				p.funcs[old] = nf
+				// rules also recognise callees by name: calls to the renamed function resolve to a
+				// stand-in object that carries the name the rules know
+				short := old[strings.LastIndex(old, ".")+1:]
+				syn := types.NewFunc(nf.Obj.Pos(), nf.Obj.Pkg(), short, nf.Obj.Type().(*types.Signature))
+				funcCanon[nf.Obj] = syn
+				nf.Obj = syn
 				continue
 			}
 			keep = append(keep, nf)
